@@ -736,13 +736,18 @@ class Evolution(pg.DNAGenerator):
           'the initial population size (through the second item of the '
           '`population_init` tuple) or reduce the number of parallel sampling '
           'clients.')
+    proposed_ids = set()
     for i, child in enumerate(children):
       # NOTE(daiyip): If a child's feedback sequence number exists, it's
       # an existing DNA from the population, in such case, we should clone
-      # to avoid the existing population get polluted.
-      if get_feedback_sequence_number(child) is not None:
+      # to avoid the existing population get polluted. The same applies when
+      # the reproduction returns one object more than once (e.g. `op + op`):
+      # every proposal must be an object of its own.
+      if (get_feedback_sequence_number(child) is not None
+          or id(child) in proposed_ids):
         child = child.clone(deep=True)
         children[i] = child
+      proposed_ids.add(id(child))
 
       # Update the 1-based ID and generation information for the DNA.
       set_proposal_id(child, current_step + 1 + i)
